@@ -2,7 +2,7 @@
 From Coq Require Import Extraction ExtrOcamlBasic ExtrOcamlString.
 From AT Require Import Num Vec Aff Farkas FM Equiv PTree Cells Abs.
 Extraction Blacklist List String Int.
-Extraction "model.ml"
+Extraction "model_c02.ml"
   qc_of_float qz qfrac qleb qltb qeqb Qcplus Qcmult Qcopp Qcminus Qcdiv
   dot vadd vsub matvec veqb meqb
   apply acompose aff_eqb wf_affb outdim aadd asub amul aneg
